@@ -102,6 +102,7 @@ func runCheck(args []string) {
 		os.Exit(2)
 	}
 	t0 := time.Now()
+	quickTier = *tier == "quick" && !*updateBaseline
 	seed := 0
 	fmt.Sscan(os.Getenv("VERIF_SEED"), &seed)
 	timeout := 20
@@ -137,6 +138,8 @@ func runCheck(args []string) {
 	os.RemoveAll(replayDir)
 
 	var violations []string
+	var slowUndecided []string
+	var coverUndecided []string
 	report := func(obl string, detail string, model bool, extra string) {
 		os.MkdirAll(replayDir, 0o755)
 		path := filepath.Join(replayDir, unsafeName.ReplaceAllString(obl, "_")+".txt")
@@ -185,7 +188,7 @@ func runCheck(args []string) {
 		nobl := 0
 		genErr := ""
 		for _, j := range jobsFor(fn, c, -1) {
-			res := P.verifyFunc(j.fn, j.c, j.cfg, j.has)
+			res := P.verifyFunc(j.fn, j.c, j.cfg, j.has, j.extra...)
 			results = append(results, res)
 			for _, o := range res.Obls {
 				o.SMT = EmitSMT(o.Hyps, o.Goal, "", o.Cover, o.Watch)
@@ -214,7 +217,17 @@ func runCheck(args []string) {
 	// group obligations; decide which to run in this tier
 	groups := map[string]*groupResult{}
 	var order []string
+	stripCfg := func(n string) string {
+		if i := strings.LastIndex(n, "@"); i >= 0 && !strings.Contains(n[i:], "/") {
+			return n[:i]
+		}
+		return n
+	}
 	for _, o := range all {
+		if o.Kind == "cover" || o.Kind == "finding" {
+			// vacuity guards and finding-presence queries hold if they hold under some configuration
+			o.Group = stripCfg(o.Group)
+		}
 		g := groups[o.Group]
 		if g == nil {
 			g = &groupResult{Name: o.Group, Solvers: map[string]int{}}
@@ -233,14 +246,14 @@ func runCheck(args []string) {
 			g.Status = "undecided"
 			continue
 		}
-		if *tier == "quick" {
-			if _, slow := base.Slow[gn]; slow && !*updateBaseline {
+		for _, o := range g.Obls {
+			if _, slow := base.Slow[o.Name]; slow && *tier == "quick" && !*updateBaseline {
 				skippedSlow++
-				g.Status = "skipped-slow"
+				o.Status = "skipped-slow"
 				continue
 			}
+			run = append(run, o)
 		}
-		run = append(run, g.Obls...)
 	}
 	solveAll(run, workDir, timeout, runtime.NumCPU())
 
@@ -253,13 +266,24 @@ func runCheck(args []string) {
 	var knownLines []string
 	var newGroups []string
 	slowNow := map[string]float64{}
+	_ = 0
 	for _, gn := range order {
 		g := groups[gn]
 		if g.Status == "undecided" || g.Status == "skipped-slow" {
 			continue
 		}
 		g.OK = true
+		anyCoverSat := false
+		isCoverGroup := len(g.Obls) > 0 && g.Obls[0].Kind == "cover"
 		for _, o := range g.Obls {
+			if o.Cover && o.Status == "sat" {
+				anyCoverSat = true
+			}
+		}
+		for _, o := range g.Obls {
+			if o.Status == "skipped-slow" {
+				continue
+			}
 			solverTime += o.Time
 			g.Time += o.Time
 			if o.Time > maxTime {
@@ -270,6 +294,19 @@ func runCheck(args []string) {
 				// sat = the recorded finding is still present
 				continue
 			}
+			if isCoverGroup && anyCoverSat && !ok {
+				continue // unreachable under this configuration only
+			}
+			if o.Cover && !ok && o.Status != "unsat" {
+				// a vacuity guard the solvers could not decide either way: nothing is learnt, nothing is claimed
+				coverUndecided = append(coverUndecided, o.Name)
+				continue
+			}
+			if _, slow := base.Slow[o.Name]; slow && !ok && !*updateBaseline && (o.Status == "timeout" || o.Status == "unknown") {
+				// recorded as close to the time limit: a timeout decides nothing — not counted, never a violation
+				slowUndecided = append(slowUndecided, o.Name)
+				continue
+			}
 			total++
 			if ok {
 				discharged++
@@ -278,9 +315,9 @@ func runCheck(args []string) {
 				g.OK = false
 				g.Status = o.Status
 			}
-		}
-		if g.Time > 8 {
-			slowNow[gn] = g.Time
+			if o.Time > 12 {
+				slowNow[o.Name] = o.Time
+			}
 		}
 		if len(samples) < 6 && g.OK && len(g.Obls) > 0 {
 			o := g.Obls[0]
@@ -317,6 +354,15 @@ func runCheck(args []string) {
 			}
 			ok := (o.Cover && o.Status == "sat") || (!o.Cover && o.Status == "unsat")
 			if ok {
+				continue
+			}
+			if o.Cover && o.Status != "unsat" {
+				continue
+			}
+			if _, slow := base.Slow[o.Name]; slow && (o.Status == "timeout" || o.Status == "unknown") {
+				continue
+			}
+			if o.Status == "skipped-slow" {
 				continue
 			}
 			detail := fmt.Sprintf("kind: %s\nclause: %s\nconfiguration: %s\nsolver verdict: %s (%s, %.2fs)\nSMT file: %s\n", o.Kind, o.Note, o.Config, o.Status, o.Solver, o.Time, oblFile(workDir, o))
@@ -380,6 +426,10 @@ func runCheck(args []string) {
 		}
 		sort.Strings(gs)
 		base.Groups[*prop] = gs
+		for _, o := range all {
+			delete(base.Slow, o.Name)
+			delete(base.Slow, o.Group)
+		}
 		for gn, t := range slowNow {
 			base.Slow[gn] = float64(int(t*10)) / 10
 		}
@@ -392,7 +442,7 @@ func runCheck(args []string) {
 	finish(*prop, *tier, seed, t0, cov, map[string]interface{}{
 		"functions_under_contract": funcsUnder, "by_backend": byBackend, "solver_time_s": map[string]float64{"sum": round2(solverTime), "max": round2(maxTime)},
 		"samples": samples, "assumed_contracts": assumed, "undecided_clauses": undecidedList, "skipped_slow_groups_in_quick_tier": skippedSlow,
-		"new_groups_not_in_baseline": newGroups, "groups": len(order),
+		"new_groups_not_in_baseline": newGroups, "groups": len(order), "slow_groups_undecided_this_run": slowUndecided, "vacuity_guards_undecided": coverUndecided,
 	}, violations, knownLines, sortedKeys(trusted), P, timeout)
 }
 
